@@ -81,6 +81,13 @@ func loadRepo(dir, tier, arch string) (*Ctx, error) {
 	if nmod < minModulePackages {
 		return nil, fmt.Errorf("only %d module packages loaded (expected >= %d)", nmod, minModulePackages)
 	}
+	c.resolveFieldNames()
+	flatInModule = func(f *ssa.Function) bool { return c.InModule(f) && !c.isCmd(f) }
+	resetFlatCache()
+	sentinelMu.Lock()
+	sentinelCache = map[*ssa.Global]bool{}
+	sentinelMu.Unlock()
+	flatSentinel = c.sentinelError
 	c.All = ssautil.AllFunctions(prog)
 	for fn := range c.All {
 		if c.InModule(fn) && !c.isCmd(fn) {
